@@ -94,6 +94,15 @@ def fixed_scenarios():
     # equal watches scheduled from two threads at once: they must share one emitter
     S.append(("concurrent-schedule-equal", {"emit": {0: [1]}, "threads": [[("start",), ("schedule", 0, 0, "n")],
                                                                           [("schedule", 1, 0, "n")]]}))
+    # a handler removed from a watch and registered for it again (from a client thread; from its own callback): exactly
+    # one delivery per event afterwards
+    S.append(("remove-readd", {"emit": {0: [1, 2, 3]}, "callbacks": {0: [[], [], [("stop",)]]},
+                               "threads": [[("schedule", 0, 0, "n"), ("schedule", 1, 0, "n"), ("remove", 1, 0), ("add", 1, 0),
+                                            ("start",), ("join",)]]}))
+    S.append(("remove-readd-running", {"emit": {0: [1, 2, 3]}, "callbacks": {0: [[], [], [("stop",)]]},
+                                       "threads": [SETUP + [("remove", 1, 0), ("add", 1, 0), ("join",)]]}))
+    S.append(("cb-remove-readd", {"emit": {0: [1, 2, 3]}, "callbacks": {1: [[("remove", 1, 0), ("add", 1, 0)]], 0: [[], [], [("stop",)]]},
+                                  "threads": [SETUP + [("join",)]]}))
     S.append(("unschedule-unknown", {"threads": [[("unschedule", 0), ("remove", 0, 0), ("add", 0, 0), ("stop",)]]}))
     return S
 
